@@ -129,7 +129,9 @@ def _run_one(v, case, scratch, i):
                           else load_xarray_dataset(run_folder=folder, load_intermediate=li))
                 datasets[(how, li)] = ds
             except Exception as e:  # noqa: BLE001
-                tag = "zipped-2d-inputs" if (isinstance(e, NotImplementedError) and zipped_2d(case)) else "other"
+                # mechanism: several arrays of rank >= 2 (inputs or loaded intermediates) share one axes tuple and pipefunc
+                # asks pandas for a MultiIndex of them (pandas: "> 1 ndim Categorical are not supported")
+                tag = "zipped-2d-inputs" if (isinstance(e, NotImplementedError) and "ndim" in str(e)) else "other"
                 v.bad(exc_sig(e, f"dataset-raises/{how}") + f"/{tag}", f"{how} dataset (load_intermediate={li}) raised {exc_msg(e)}", **w)
                 return None
     v.count("datasets_built", len(datasets))
